@@ -270,7 +270,9 @@ def evaluate_z3_seq_in_re(
 
     return Some(
         construct_result(
-            lambda args: re.match(f"^{args[1]}$", args[0]) is not None,
+            # Not `^...$`: `$` also matches before a trailing newline, and `.` (from
+            # `re.all`) must match newline characters like any other character.
+            lambda args: re.fullmatch(args[1], args[0], flags=re.DOTALL) is not None,
             children_results,
         )
     )
